@@ -156,6 +156,18 @@ func (r *Run) reflectCall(st *State, fr *Frame, name string, recv Val, args []Va
 			st.assume(Eq(uf("rt_numout", SInt, t), out0.Len))
 		}
 		return done(t)
+	case "reflect.Select":
+		// returns the index of the case that proceeded; exactly that case's communication happened
+		cases, ok := args[0].(*SliceV)
+		idx := e.freshConst("selected", SInt)
+		if ok {
+			safe("Select.nonempty", App(SBool, ">", cases.Len, IntLit(0)), "reflect.Select with at least one case")
+			st.assume(And(App(SBool, "<=", IntLit(0), idx), App(SBool, "<", idx, cases.Len)))
+			st.Ghost["select.cases"] = cases
+			st.Ghost["select.idx"] = idx
+		}
+		r.yield(st, fr, in, "reflect.Select")
+		return done(intRes(idx), e.freshConst("selrecv", vs), e.freshConst("selok", SBool))
 	case "reflect.Append":
 		return done(e.freshConst("rv_append", vs))
 	// ------------------------------------------------------------ Type (interface) methods
